@@ -114,11 +114,18 @@ def run_property(prop, tier, seed, mods, jobs=16, only='', rebaseline=False, t0=
             sampled_units[0] += 1
             if sm.get('evaluations', 0) == 0:
                 checker_errors.append({'contract': cname, 'case': case, 'why': 'sampling accepted no input'})
-            for f in sm.get('failures', [])[:1]:
-                entry = {'obligation': f'{prop}/{cname}/{case}/' + (f['violated'][0] if f['violated'] else 'sampled'),
-                         'contract': cname, 'case': case, 'label': f['violated'][0] if f['violated'] else 'sampled',
-                         'input': f, 'how': 'sampled evaluation of the contract on the real function'}
-                k = _match_known(known, cname, case, entry['label'])
+            seen_labels = set()
+            for f in sm.get('failures', []):
+                label = f['violated'][0] if f['violated'] else 'sampled'
+                kid = f.get('known')
+                if (label, kid) in seen_labels:
+                    continue
+                seen_labels.add((label, kid))
+                entry = {'obligation': f'{prop}/{cname}/{case}/' + label,
+                         'contract': cname, 'case': case, 'label': label,
+                         'input': f, 'how': 'bounded / sampled evaluation of the contract on the real function'}
+                k = next((e for e in known if e['id'] == kid), None) if kid else (
+                    None if 'known' in f else _match_known(known, cname, case, label))
                 if k:
                     known_hits.append((k, entry))
                 else:
